@@ -49,7 +49,7 @@ example :
 /-! ### names, logic, conditionals -/
 
 theorem missing_name_undefined (n : String) (h : ctx.vars.find? (·.1 == n) = none) :
-    eval c ae ctx (.name n) = M.ok (.undef n) := by
+    eval c ae ctx (.name n) = M.ok (.undef "") := by
   simp [eval, lookupVar, h, pure_def]
 
 theorem bound_name (n : String) (p : String × Val) (h : ctx.vars.find? (·.1 == n) = some p) :
